@@ -2,7 +2,7 @@
     k-mer index (kmermap.go) and 4-mer tables (encodefourmer.go, counting.go).
     k-mer words are [N]; a wrap / mask is written exactly where the Go code wraps or masks (and is
     ABSENT where it does not). The functions follow the code as repaired by the fix: commits listed
-    in known_findings.d/C19.json; the pre-repair versions are kept with the suffix [_orig] for the
+    in known_findings.d/C19.json; the pre-repair versions are kept with the suffix [_orig] / [_pre] for the
     [_refuted] theorems. Executable definitions only. *)
 From Coq Require Import NArith List Bool.
 Import ListNotations.
@@ -176,8 +176,9 @@ Definition not64 (x : N) : N := W64 - 1 - x mod W64.
 Definition dbg_mask (k : N) : N := not64 (shl64 (W64 - 1) (2 * k)).
 Definition clear2 (x : N) : N := N.land x (not64 3).
 
-(* append: one recursion level per remaining byte, one branch per IUPAC code; the map is shared *)
-Fixpoint dbg_append (mask w : N) (s : list N) (cur : N) (g : graph) : option graph :=
+(* ---- the code BEFORE the repair of the finding iupac-prefix-multiplicity (suffix [_pre]) ----
+   append: one recursion level per remaining byte, one branch per IUPAC code; the map is shared *)
+Fixpoint dbg_append_pre (mask w : N) (s : list N) (cur : N) (g : graph) : option graph :=
   match s with
   | [] => Some g
   | b :: t =>
@@ -185,7 +186,7 @@ Fixpoint dbg_append (mask w : N) (s : list N) (cur : N) (g : graph) : option gra
     | [] => None                                   (* b[0] on the nil slice: index panic *)
     | c0 :: cs =>
       let cur0 := N.lor (N.land (shl64 cur 2) mask) c0 in
-      match dbg_append mask w t cur0 (add_w cur0 w g) with
+      match dbg_append_pre mask w t cur0 (add_w cur0 w g) with
       | None => None
       | Some g0 =>
         (fix others (cs : list N) (cur : N) (g : graph) : option graph :=
@@ -193,7 +194,7 @@ Fixpoint dbg_append (mask w : N) (s : list N) (cur : N) (g : graph) : option gra
            | [] => Some g
            | c :: cs' =>
              let cur' := N.lor (clear2 cur) c in
-             match dbg_append mask w t cur' (add_w cur' w g) with
+             match dbg_append_pre mask w t cur' (add_w cur' w g) with
              | None => None
              | Some g' => others cs' cur' g'
              end
@@ -203,9 +204,9 @@ Fixpoint dbg_append (mask w : N) (s : list N) (cur : N) (g : graph) : option gra
   end.
 
 (* Push.initFirstKmer: [n] bytes of the first k-mer still to read *)
-Fixpoint dbg_first (n : nat) (mask w : N) (s : list N) (key : N) (g : graph) : option graph :=
+Fixpoint dbg_first_pre (n : nat) (mask w : N) (s : list N) (key : N) (g : graph) : option graph :=
   match n with
-  | O => dbg_append mask w s key (add_w key w g)
+  | O => dbg_append_pre mask w s key (add_w key w g)
   | S n' =>
     match s with
     | [] => None                                   (* unreachable after the length test *)
@@ -216,7 +217,7 @@ Fixpoint dbg_first (n : nat) (mask w : N) (s : list N) (key : N) (g : graph) : o
          | [] => Some g
          | c :: cs' =>
            let key' := N.lor (clear2 key) c in
-           match dbg_first n' mask w t key' g with
+           match dbg_first_pre n' mask w t key' g with
            | None => None
            | Some g' => each cs' key' g'
            end
@@ -225,10 +226,87 @@ Fixpoint dbg_first (n : nat) (mask w : N) (s : list N) (key : N) (g : graph) : o
   end.
 
 (* Push; [ge] = the repaired length test (Len() >= k); the original is Len() > k *)
+Definition dbg_push_pre_with (ge : bool) (k : N) (g : graph) (sq : list N * N) : option graph :=
+  let '(s, w) := sq in
+  let n := N.of_nat (length s) in
+  if (if ge then k <=? n else k <? n) then dbg_first_pre (N.to_nat k) (dbg_mask k) w s 0 g else Some g.
+
+Fixpoint dbg_build_pre_with (ge : bool) (k : N) (seqs : list (list N * N)) (g : graph) : option graph :=
+  match seqs with
+  | [] => Some g
+  | sq :: t => match dbg_push_pre_with ge k g sq with None => None | Some g' => dbg_build_pre_with ge k t g' end
+  end.
+Definition dbg_build_pre (k : N) (seqs : list (list N * N)) : option graph := dbg_build_pre_with true k seqs [].
+(* the fully original code: old append and original length test *)
+Definition dbg_build_orig (k : N) (seqs : list (list N * N)) : option graph := dbg_build_pre_with false k seqs [].
+
+(* ---- the code as repaired ----
+   append(sequence, current, weight): the slice [sequence] is ([lim] first bytes of [s]); K1 = kmersize-1.
+   The first code of a base recurses on rest = sequence[1:] ([lim-1] bytes of the tail); the other codes on
+   rest[:kmersize-1] when len(rest) > kmersize-1, i.e. on (min (lim-1) K1) bytes of the tail. *)
+Fixpoint dbg_append (K1 : nat) (mask w : N) (lim : nat) (s : list N) (cur : N) (g : graph) {struct s} : option graph :=
+  match s with
+  | [] => Some g
+  | b :: t =>
+    match lim with
+    | O => Some g                                  (* len(sequence) == 0 *)
+    | S l =>
+      match iupac b with
+      | [] => None                                 (* b[0] on the nil slice: index panic *)
+      | c0 :: cs =>
+        let cur0 := N.lor (N.land (shl64 cur 2) mask) c0 in
+        match dbg_append K1 mask w l t cur0 (add_w cur0 w g) with
+        | None => None
+        | Some g0 =>
+          let l' := Nat.min l K1 in
+          (fix others (cs : list N) (cur : N) (g : graph) : option graph :=
+             match cs with
+             | [] => Some g
+             | c :: cs' =>
+               let cur' := N.lor (clear2 cur) c in
+               match dbg_append K1 mask w l' t cur' (add_w cur' w g) with
+               | None => None
+               | Some g' => others cs' cur' g'
+               end
+             end) cs cur0 g0
+        end
+      end
+    end
+  end.
+
+(* Push.initFirstKmer(start, key, end): [n] = kmersize - start bytes of the first k-mer still to read,
+   [s] = the sequence from index [start]; [lim] = end - kmersize = number of bytes after the first k-mer
+   that append may read (s[kmersize:end]). In the loop over the codes, for j > 0:
+   if start+kmersize < end then end = start+kmersize, i.e. if start < lim then lim = start; the
+   assignment persists for the following iterations ([lim] is carried by the loop; [first] = (j == 0)). *)
+Fixpoint dbg_first (n start : nat) (K1 : nat) (mask w : N) (lim : nat) (s : list N) (key : N) (g : graph) : option graph :=
+  match n with
+  | O => dbg_append K1 mask w lim s key (add_w key w g)
+  | S n' =>
+    match s with
+    | [] => None                                   (* unreachable after the length test *)
+    | b :: t =>
+      let key := shl64 key 2 in
+      (fix each (first : bool) (cs : list N) (key : N) (lim : nat) (g : graph) : option graph :=
+         match cs with
+         | [] => Some g
+         | c :: cs' =>
+           let key' := N.lor (clear2 key) c in
+           let lim' := if first then lim else if Nat.ltb start lim then start else lim in
+           match dbg_first n' (S start) K1 mask w lim' t key' g with
+           | None => None
+           | Some g' => each false cs' key' lim' g'
+           end
+         end) true (iupac b) key lim g
+    end
+  end.
+
+(* Push; [ge] = the repaired length test (Len() >= k); initFirstKmer(0, 0, len(s)): lim = len(s) - k *)
 Definition dbg_push_with (ge : bool) (k : N) (g : graph) (sq : list N * N) : option graph :=
   let '(s, w) := sq in
   let n := N.of_nat (length s) in
-  if (if ge then k <=? n else k <? n) then dbg_first (N.to_nat k) (dbg_mask k) w s 0 g else Some g.
+  if (if ge then k <=? n else k <? n)
+  then dbg_first (N.to_nat k) 0 (N.to_nat k - 1) (dbg_mask k) w (length s - N.to_nat k) s 0 g else Some g.
 
 Fixpoint dbg_build_with (ge : bool) (k : N) (seqs : list (list N * N)) (g : graph) : option graph :=
   match seqs with
@@ -236,7 +314,6 @@ Fixpoint dbg_build_with (ge : bool) (k : N) (seqs : list (list N * N)) (g : grap
   | sq :: t => match dbg_push_with ge k g sq with None => None | Some g' => dbg_build_with ge k t g' end
   end.
 Definition dbg_build (k : N) (seqs : list (list N * N)) : option graph := dbg_build_with true k seqs [].
-Definition dbg_build_orig (k : N) (seqs : list (list N * N)) : option graph := dbg_build_with false k seqs [].
 
 Definition nodes (g : graph) : list N := map fst g.
 Definition nexts (k : N) (g : graph) (x : N) : list N :=
@@ -298,12 +375,13 @@ Definition agrees (c : ccase) : bool :=
     | None => false
     | Some g =>
       list_eqb pair_eqb g nd && list_eqb N.eqb (heads k g) hd
-      && (negb full                      (* big graphs: weights / nodes / heads only (the specification is cubic) *)
-          || (Bool.eqb (has_cycle k g) cyc
-              && match g with
-                 | [] => true            (* HaviestPath on the empty graph: outside the statement *)
-                 | _ => opt_eqb N.eqb (best_walk_weight k g) pw
-                 end))
+      && (if full                        (* big graphs: weights / nodes / heads only (the specification is cubic); [if], not [||]: *)
+          then Bool.eqb (has_cycle k g) cyc      (* vm_compute is call-by-value, orb would evaluate the cubic part anyway *)
+               && match g with
+                  | [] => true            (* HaviestPath on the empty graph: outside the statement *)
+                  | _ => opt_eqb N.eqb (best_walk_weight k g) pw
+                  end
+          else true)
     end
   | CKmap wd k sparse s o orc =>
     opt_eqb (list_eqb N.eqb) (option_map sortN (canon wd k sparse s)) o
